@@ -174,12 +174,16 @@ class WorldGen:
         "reserve": [8, 3, 8, 5, 3, 6, 2, 2, 1, 14, 10, 4, 1, 2, 4, 4],
         "cache":   [10, 1, 22, 14, 16, 3, 0, 1, 0, 1, 0, 0, 1, 1, 2, 0],
         "batch":   [6, 2, 4, 3, 2, 8, 1, 1, 1, 3, 2, 1, 3, 10, 14, 10],
+        # few ids, many despawns / id-targeted respawns (generations rewound by spawn_at), and many mutator calls
+        # on table entries that are dead by now
+        "stale":   [9, 10, 9, 9, 6, 14, 4, 2, 1, 2, 1, 2, 0, 1, 2, 3],
     }
 
     def __init__(self, rnd, profile="default", err=0.08, ntypes_bias=None):
         self.r = rnd
         self.w = self.PROFILES[profile]
-        self.err = err if profile != "errors" else 0.45
+        self.err = 0.45 if profile == "errors" else 0.35 if profile == "stale" else err
+        self.stale_bias = 0.85 if profile == "stale" else 0.35
         self.table = []          # dict(world, alive, types:set, reserved)
         self.serial = 0
         self.out = []
@@ -241,7 +245,7 @@ class WorldGen:
                 i = r.choice(a[-6:]) if r.random() < 0.5 else r.choice(a)
                 return [0, i], i
         k = r.random()
-        if k < 0.35 and self.table:
+        if k < self.stale_bias and self.table:
             i = r.randrange(len(self.table))          # any table entry: dead, other world, reserved
             return [0, i], i
         if k < 0.5:
